@@ -803,6 +803,60 @@ fn parsed_val(m: &ParsedMessage) -> Val {
     }
 }
 
+// Hidden encoder state.  The model's encoder is a function of the message and of an immutable session
+// codec; PeerCodec::encode_to takes &mut self.  One long-lived codec per (local, remote) capability pair
+// therefore encodes, over the whole run, every message of that pair in case order -- each message is built,
+// encoded and DROPPED before the next one is built, as the sending task does -- and right after the message of
+// the current case it encodes the previous case's message again (rebuilt from its description, so it is a new
+// allocation that typically lands where the one just dropped was).  Both encodings must be byte-identical to
+// what a fresh codec produces for the same message: mem = [m1, m2] with 1 = identical, 0 = different,
+// 2 = not applicable (no earlier message / message not buildable).
+thread_local! {
+    static HISTORY: std::cell::RefCell<std::collections::HashMap<String, (PeerCodec, Option<Val>)>> =
+        std::cell::RefCell::new(std::collections::HashMap::new());
+}
+
+fn encode_fresh(local: &[rustybgp_packet::bgp::Capability], remote: &[rustybgp_packet::bgp::Capability], mv: &Val) -> Option<(bool, Vec<u8>)> {
+    let msg = message_of(mv).ok()?;
+    let mut c = PeerCodec::negotiate(local, remote);
+    let mut b = BytesMut::new();
+    let ok = c.encode_to(&msg, &mut b).is_ok();
+    Some((ok, b.to_vec()))
+}
+
+fn encoder_memory(case: &Val, local: &[rustybgp_packet::bgp::Capability], remote: &[rustybgp_packet::bgp::Capability]) -> Val {
+    let key = format!("{}|{}", case.at(0), case.at(1));
+    HISTORY.with(|h| {
+        let mut h = h.borrow_mut();
+        let (codec, prev) = h.entry(key).or_insert_with(|| (PeerCodec::negotiate(local, remote), None));
+        let mut out = Vec::new();
+        let mut todo: Vec<Val> = vec![case.at(2).clone()];
+        if let Some(p) = prev.take() {
+            todo.push(p);
+        }
+        for mv in &todo {
+            let fresh = encode_fresh(local, remote, mv);
+            let lived = match message_of(mv) {
+                Ok(msg) => {
+                    let mut b = BytesMut::new();
+                    let ok = codec.encode_to(&msg, &mut b).is_ok();
+                    Some((ok, b.to_vec()))
+                } // msg is dropped here, before the next one is built
+                Err(_) => None,
+            };
+            out.push(match (fresh, lived) {
+                (Some(a), Some(b)) => Val::b(a == b),
+                _ => Val::I(2),
+            });
+        }
+        if out.len() < 2 {
+            out.push(Val::I(2));
+        }
+        *prev = Some(case.at(2).clone());
+        Val::L(out)
+    })
+}
+
 fn run_case(case: &Val) -> Val {
     let local = caps::caps_of(case.at(0));
     let remote = caps::caps_of(case.at(1));
@@ -810,6 +864,7 @@ fn run_case(case: &Val) -> Val {
         Ok(m) => m,
         Err(BadCase(_)) => return Val::L(vec![Val::I(-9)]),
     };
+    let mem = encoder_memory(case, &local, &remote);
     let mut tx = PeerCodec::negotiate(&local, &remote);
     let mut buf = BytesMut::new();
     let enc = match tx.encode_to(&msg, &mut buf) {
@@ -856,7 +911,7 @@ fn run_case(case: &Val) -> Val {
     for y in &parsed {
         fix.push(Val::I(refix(y, &mut tx, &mut rx)));
     }
-    Val::L(vec![enc, bytes, Val::L(decoded), Val::us(leftover), Val::L(fix)])
+    Val::L(vec![enc, bytes, Val::L(decoded), Val::us(leftover), Val::L(fix), mem])
 }
 
 // 1: fixed point, 0: not a fixed point, 2: not applicable (validation yields != 1 message)
